@@ -54,8 +54,9 @@ pub(crate) mod openat2;
 /// A limited resolver only used for `/proc` lookups in `ProcfsHandle`.
 pub(crate) mod procfs;
 
-/// Maximum number of symlink traversals we will accept.
-const MAX_SYMLINK_TRAVERSALS: usize = 128;
+/// Maximum number of symlink traversals we will accept in a single lookup
+/// (the same as the kernel's `MAXSYMLINKS`, so that both backends agree).
+const MAX_SYMLINK_TRAVERSALS: usize = 40;
 
 /// The backend used for path resolution within a [`Root`] to get a [`Handle`].
 ///
